@@ -64,7 +64,7 @@ theorem atEOF_refines {s a} (h : R s a) (hrest : a.rest = []) (hb0 : a.behind = 
         destruct_R h
         constructor <;> simp_all <;> (try assumption) <;> (try omega)
 
-theorem fillE_readErr {s a} (h : R s a) (hal : a.err = none) (hp : s.pending = []) :
+theorem fillE_readErr {s a} (h : R s a) (hal : a.err = none) (_hp : s.pending = []) :
     a.fillE.readErr = true := by
   unfold LSt.fillE
   by_cases h1 : (a.readEOF || a.r == runeEOF) = true
@@ -114,7 +114,7 @@ theorem runeStep_refines {s a} (bq : Nat) (h : R s a)
     simp only [List.isEmpty_cons, Bool.false_eq_true, if_false, bind_ok, pure_eq_ok]
     obtain ⟨hal, hrest⟩ := h0.head hf
     rw [hrest] at hok ⊢
-    exact key s b f h0 hf hok
+    simpa [hf] using key s b f h0 hf hok
   | nil =>
     obtain ⟨n, s', h1, h2, h3, h4⟩ := ensure1 h0 hb0 hf
     simp only [List.isEmpty_nil, if_true, h1, bind_ok, pure_eq_ok]
@@ -145,6 +145,6 @@ theorem runeStep_refines {s a} (bq : Nat) (h : R s a)
         injection hrest with hbb _
         subst hbb
         rw [hr] at hok
-        exact key s' b f' h2 hf' hok
+        simpa [hf'] using key s' b f' h2 hf' hok
 
 end ShVerif.C07
